@@ -49,3 +49,31 @@ Proof.
   - pyrunA. reflexivity.
   - pyrunA. reflexivity.
 Qed.
+
+(* integer pieces (Angle(12, 30, 15)) and int degrees/minutes with float seconds *)
+Lemma forms3_III d m s r :
+  Angle_dms2deg Rops (VInt d) (VInt m) (VInt s) = VFloat r ->
+  mkA [VInt d; VInt m; VInt s] = ang r /\
+  mkA [VTuple [VInt d; VInt m; VInt s]] = ang r /\
+  mkA [VList [VInt d; VInt m; VInt s]] = ang r /\
+  mkA_kw [VInt d; VInt m; VInt s] "ra" = ang (red360 (r * 15)).
+Proof.
+  intros H. unfold mkA, mkA_kw, blank, no_kw. repeat split.
+  - pyrunA. reflexivity.
+  - pyrunA. reflexivity.
+  - pyrunA. reflexivity.
+  - pyrunA. Rlit_norm. assert (150 / 10 = 15) as -> by lra. reflexivity.
+Qed.
+Lemma forms3_IIF d m s r :
+  Angle_dms2deg Rops (VInt d) (VInt m) (VFloat s) = VFloat r ->
+  mkA [VInt d; VInt m; VFloat s] = ang r /\
+  mkA [VTuple [VInt d; VInt m; VFloat s]] = ang r /\
+  mkA [VList [VInt d; VInt m; VFloat s]] = ang r /\
+  mkA_kw [VInt d; VInt m; VFloat s] "ra" = ang (red360 (r * 15)).
+Proof.
+  intros H. unfold mkA, mkA_kw, blank, no_kw. repeat split.
+  - pyrunA. reflexivity.
+  - pyrunA. reflexivity.
+  - pyrunA. reflexivity.
+  - pyrunA. Rlit_norm. assert (150 / 10 = 15) as -> by lra. reflexivity.
+Qed.
